@@ -70,7 +70,12 @@ func fieldsOf(src *formula.SourceCode) (res string) {
 }
 
 // evalFresh evaluates a tree with a fresh runner over a fresh data map.
-func evalFresh(src *formula.SourceCode, spec dataSpec) (res string) {
+// reKeyT: the context key under which a host function finds the runner it is to evaluate a
+// formula on while the calling evaluation is under way (f_re): the calling runner itself
+// (mode 0) or another one (mode 1). The outcome must not depend on which.
+type reKeyT struct{}
+
+func evalFresh(src *formula.SourceCode, spec dataSpec, mode int) (res string) {
 	defer func() {
 		if p := recover(); p != nil {
 			res = panicOutcome(p)
@@ -81,7 +86,11 @@ func evalFresh(src *formula.SourceCode, spec dataSpec) (res string) {
 	if !spec.NoMap {
 		r.SetThis(spec.build(lg, time.UTC))
 	}
-	v, err := r.Resolve(context.Background(), src.Expression)
+	target := r
+	if mode%2 == 1 {
+		target = formula.NewRunner()
+	}
+	v, err := r.Resolve(context.WithValue(context.Background(), reKeyT{}, target), src.Expression)
 	return outcome(v, err) + " host=" + strings.Join(lg.calls, ";")
 }
 
@@ -168,7 +177,7 @@ func buildCorpus(tier string) {
 			e.structH, e.structN = structHash(src)
 		}
 		if e.parseErr == "" && src != nil {
-			e.outcome = evalFresh(src, e.Spec)
+			e.outcome = evalFresh(src, e.Spec, i)
 			e.fields = fieldsOf(src)
 			// evaluation and analysis must not have touched the tree
 			if hh, _ := deepHash(src); hh != e.treeHash {
@@ -355,7 +364,7 @@ func runPurity(rc *RunCtx) {
 			if e.zoneDep && zn != "UTC" {
 				return
 			}
-			got := evalFresh(e.tree, e.Spec)
+			got := evalFresh(e.tree, e.Spec, int(op.Seed>>7))
 			if got != e.outcome {
 				ts.violation("same value or same error every time", "eval-differs/"+commonPrefix(got, e.outcome),
 					"corpus["+strconv.Itoa(op.Idx)+"] `"+e.Text+"` data "+specString(e.Spec)+": now "+got+" ; pristine-process baseline "+e.outcome)
@@ -403,7 +412,7 @@ func runPurity(rc *RunCtx) {
 			if pan != nil || err != nil || src == nil {
 				res = "parse-failed"
 			} else {
-				res = evalFresh(src, noiseSpec)
+				res = evalFresh(src, noiseSpec, int(op.Seed>>7))
 				if strings.Contains(txt, "now()") || strings.Contains(txt, "toDay()") || strings.Contains(txt, "date(") {
 					res = "clock-or-zone-dependent"
 				}
